@@ -30,6 +30,7 @@ from ..ratnorm import Normaliser, padd, pmul
 from ..symx import lift, RV, SymReal, SymBool, explore, Inconclusive, SQRT, LOG
 
 PID = 'C11'
+CAT_SIZE = (2, 4)  # observations x draws of the catalogue wiring runs (thorough: 3 x 6)
 
 # ---- AS241 / PPND16 (Wichura 1988), transcribed from the published algorithm
 A = [3.3871328727963666080e0, 1.3314166789178437745e+2, 1.9715909503065514427e+3, 1.3731693765509461125e+4,
@@ -220,7 +221,7 @@ def scenario_catalogue(c, names):
     import biogeme.draws as dr
     import biogeme.native_draws as nd
     eqs = []
-    n, R = 2, 4
+    n, R = CAT_SIZE
     calls = []
 
     def tag(kind, base, skip, count, shape):
@@ -649,13 +650,16 @@ def concrete_run(case):
 
 
 def main(tier):
+    global CAT_SIZE
+    if tier == 'thorough':
+        CAT_SIZE = (3, 6)
     items = items_for(tier)
     return run_check(
         PID, tier, items, worker,
         functions_encoded=['draws.get_normal_wichura_draws', 'draws.get_uniform', 'draws.get_latin_hypercube_draws',
                            'draws.get_antithetic', 'native_draws.* (all 21 catalogue entries and helper functions)',
                            'draws.get_halton_draws (concrete differential obligations only)'],
-        bounds=dict(uniform_inputs='one symbolic u in (0,1) for the quantile transform', sizes='2 observations x 2-4 draws',
+        bounds=dict(uniform_inputs='one symbolic u in (0,1) for the quantile transform', sizes=f'{CAT_SIZE[0]} observations x {CAT_SIZE[1]} draws (catalogue), 2 x 2-4 (generators), 3 x 2 x 3 variables (table)',
                     shuffle='all permutations of up to 4 numbers', halton='bases 2,3,5,7, <= 12 points, call histories '
                     '(shuffled call, caller modifying a result) -- concrete',
                     outside='Halton = radical inverse for every size (size-dependent integer loop over a buffer); accuracy of '
